@@ -4,6 +4,7 @@ import (
 	"encoding/binary"
 	"errors"
 	"fmt"
+	"runtime/debug"
 	"sort"
 )
 
@@ -47,6 +48,10 @@ type prepared struct {
 	gvars   []*Inst
 	err     string // module level problem found while preparing (reported as trap at Run)
 	valType []uint32
+	// first structured-control-flow violation per function (static rules cfg.*); executing such a
+	// function traps, because dominance-based construct membership is unreliable once an
+	// irregular edge exists and the dynamic bookkeeping alone could miss it.
+	cfgIssue map[*Function]string
 }
 
 type trapPanic struct{ msg string }
@@ -212,6 +217,15 @@ func (m *Module) prepare() *prepared {
 		f.numLocals = k
 		f.analysis()
 	}
+	p.cfgIssue = map[*Function]string{}
+	cv := &validator{m: m, perRule: map[string]int{}, shader: true}
+	for _, f := range m.funcs {
+		cv.issues = cv.issues[:0]
+		cv.cfg(f)
+		if len(cv.issues) > 0 {
+			p.cfgIssue[f] = cv.issues[0].String()
+		}
+	}
 	return p
 }
 
@@ -329,7 +343,8 @@ func Run(m *Module, cfg RunConfig) (res *RunResult, err error) {
 			case stepPanic:
 				err = ErrStepLimit
 			default:
-				panic(r)
+				// a bug of this interpreter, never of the module under test
+				err = fmt.Errorf("spv: internal interpreter error: %v\n%s", r, debug.Stack())
 			}
 		}
 	}()
@@ -442,6 +457,9 @@ func Run(m *Module, cfg RunConfig) (res *RunResult, err error) {
 }
 
 func (it *interp) newFrame(fn *Function) *frame {
+	if msg, bad := it.p.cfgIssue[fn]; bad {
+		it.trap("malformed control flow in function %%%d: %s", fn.ID, msg)
+	}
 	return &frame{fn: fn, cf: fn.analysis(), vals: make([]Value, fn.numLocals), block: fn.Blocks[0], prev: -1, pc: 0}
 }
 
